@@ -1,0 +1,5 @@
+//go:build !verif
+
+package schedule
+
+func verifYield(string) {}
